@@ -303,7 +303,10 @@ func (ex *Explorer) worker(id int) {
 		return
 	}
 	defer sol.Close()
-	if p := os.Getenv("SYMGO_SMTLOG"); p != "" && id == 0 {
+	if p := os.Getenv("SYMGO_SMTLOG"); p != "" {
+		if id != 0 {
+			p = fmt.Sprintf("%s.%d", p, id)
+		}
 		if f, err := os.Create(p); err == nil {
 			sol.Log = f
 			defer f.Close()
@@ -582,9 +585,78 @@ func (in *Interp) addPC(t *term.Term) {
 		}
 		return
 	}
+	t = in.canonByte(t)
+	if t.IsTrue() {
+		return
+	}
 	in.pc = append(in.pc, t)
 	in.pcAdd(t)
 	in.domAdd(t)
+}
+
+// canonByte rewrites a path-condition conjunct over a single 8-bit variable
+// into a union of value ranges computed from its 256-entry truth table. The
+// result is equivalent; it replaces deep ite/and/or nests (table lookups with
+// a symbolic byte index) by a flat term the solver handles instantly.
+func (in *Interp) canonByte(t *term.Term) *term.Term {
+	v := t.SV
+	if t.MV || v == nil || v.W != 8 {
+		return t
+	}
+	switch t.Op {
+	case term.OpAnd, term.OpOr, term.OpIte:
+	case term.OpNot:
+		if o := t.Args[0].Op; o != term.OpAnd && o != term.OpOr && o != term.OpIte {
+			return t
+		}
+	default:
+		return t
+	}
+	var set [256]bool
+	for x := uint64(0); x < 256; x++ {
+		in.dev.NewGen()
+		set[x] = in.dev.Eval(t, nil, v, x) != 0
+	}
+	runs := func(want bool) [][2]uint64 {
+		var out [][2]uint64
+		for x := 0; x < 256; {
+			if set[x] != want {
+				x++
+				continue
+			}
+			y := x
+			for y+1 < 256 && set[y+1] == want {
+				y++
+			}
+			out = append(out, [2]uint64{uint64(x), uint64(y)})
+			x = y + 1
+		}
+		return out
+	}
+	build := func(rs [][2]uint64) *term.Term {
+		var alts []*term.Term
+		for _, r := range rs {
+			switch {
+			case r[0] == r[1]:
+				alts = append(alts, in.ts.Eq(v, in.ts.Const(8, r[0])))
+			case r[0] == 0:
+				alts = append(alts, in.ts.Bin(term.OpULe, v, in.ts.Const(8, r[1])))
+			case r[1] == 255:
+				alts = append(alts, in.ts.Bin(term.OpULe, in.ts.Const(8, r[0]), v))
+			default:
+				alts = append(alts, in.ts.And(in.ts.Bin(term.OpULe, in.ts.Const(8, r[0]), v), in.ts.Bin(term.OpULe, v, in.ts.Const(8, r[1]))))
+			}
+		}
+		if len(alts) == 0 {
+			return in.ts.Bool(false)
+		}
+		return in.ts.Or(alts...)
+	}
+	pos, neg := runs(true), runs(false)
+	if len(neg) < len(pos) {
+		return in.ts.Not(build(neg))
+	}
+	return build(pos)
 }
 
 // ---- byte domains: a cheap, sound pre-filter for the solver.
